@@ -185,11 +185,70 @@ def select_cases(pid, spec, tier, seed):
                 c['f'] = ','.join(fl)
             c['alpha'] = 'clusters+r'
             fam.append(c)
+    if pid in ('C01', 'C02', 'C03', 'C05', 'C07', 'C10', 'C11', 'C13', 'C16') or pid in DENSE:
+        # SIZE: what small random inputs never reach — many test cases, long test cases, long runs (two- and three-digit
+        # repetition counts, counts around 255/256), classes with hundreds of members, alternations with dozens of options
+        # (integer narrowing, capacity constants, truncation: round-6 seeds)
+        lrnd = random.Random(seed * 977 + 31 + int(hashlib.sha256(pid.encode()).hexdigest()[:4], 16))
+        nl = 24 if tier == 'quick' else 240
+        def flags_for(extra=()):
+            fl = list(spec.get('force') or [])
+            fl += [f for f in extra if f in spec['flags'] and f not in fl]
+            if lrnd.random() < 0.4:
+                fl += [f for f in lrnd.sample(spec['flags'], 1) if f not in fl and f not in ('c',)]
+            if spec.get('need_any') and not any(f in fl for f in spec['need_any']):
+                fl.append(lrnd.choice(spec['need_any']))
+            if 'E' in fl and 'e' in fl:
+                fl.remove('e')
+            return ','.join(fl)
+        for j in range(nl):
+            kind = j % 6
+            if kind == 0:      # many short test cases: 20..300 words over a..h
+                n_ = lrnd.choice([20, 33, 65, 130, 257])
+                tcs = [[lrnd.choice(range(97, 105)) for _ in range(lrnd.randint(1, 4))] for _ in range(n_)]
+                f_ = flags_for()
+            elif kind == 1:    # one long run: a^k for k around the narrowing boundaries, next to a short word
+                k_ = lrnd.choice([9, 10, 11, 99, 100, 101, 127, 128, 255, 256, 257])
+                tcs = [[97] * k_, [98, 97]] + ([[97] * (k_ + 1)] if lrnd.random() < 0.5 else [])
+                f_ = flags_for(('r',))
+            elif kind == 2:    # long test cases without repetition structure (200..600 graphemes)
+                L_ = lrnd.choice([64, 65, 128, 200, 255, 256, 257])
+                tcs = [[lrnd.choice([97, 98, 99, 100, 49, 32, 0xe9, 0x4e2d]) for _ in range(L_)] for _ in range(lrnd.randint(1, 3) if L_ <= 65 else 1)]
+                f_ = flags_for()
+                if 'r' in f_.split(','):
+                    tcs = [t[:70] for t in tcs]   # the quartic substring enumeration of the model
+            elif kind == 3:    # a class with hundreds of members: single-code-point test cases from several blocks
+                n_ = lrnd.choice([40, 70, 130])
+                base_ = lrnd.choice([0x61, 0x100, 0x400, 0x4e00, 0xac00, 0x1f600])
+                tcs = [[base_ + 2 * i_] for i_ in range(n_)] + [[base_ + 1]]
+                f_ = flags_for()
+            elif kind == 4:    # an alternation with dozens of options of equal length, sharing nothing
+                n_ = lrnd.choice([11, 17, 33, 70])
+                tcs = [[97 + (i_ % 26), 97 + (i_ * 7 % 26), 97 + (i_ * 11 % 26), 48 + i_ % 10] for i_ in range(n_)]
+                f_ = flags_for()
+            else:              # a repeated unit with a two/three-digit count inside longer text, and nested repetitions
+                u_ = [lrnd.choice([97, 98, 99]) for _ in range(lrnd.randint(1, 3))]
+                k_ = lrnd.choice([10, 12, 25, 40])
+                tcs = [[120] + u_ * k_ + [121], [120] + u_ * (k_ - 1) + [121, 121]]
+                f_ = flags_for(('r',))
+            fam.append({'tcs': tcs, 'f': f_, 'mr': lrnd.choice([1, 1, 2, 9, 10, 255]), 'ms': lrnd.choice([1, 1, 2, 3]), 'alpha': 'large'})
+        # beyond what the extracted model evaluates in seconds (its list-based algorithms are polynomially slower than the
+        # implementation): implementation-side oracles only (panic, compile, every test case matched) — marked impl_only
+        giant = []
+        w300 = [lrnd.choice([97, 98, 99, 100, 101, 102, 103]) for _ in range(297)]
+        giant.append(([[97, 97, 97] + w300], ('r',)))                                   # a repetition inside the first 256 graphemes of a longer test case
+        giant.append(([[lrnd.choice([97, 98]) for _ in range(700)]], ()))
+        giant.append(([[0x4e00 + 3 * i_] for i_ in range(1200)], ()))                   # a class with 1200 members
+        giant.append(([[97 + (i_ >> (4 * k_)) % 16 for k_ in range(3)] + [48 + i_ % 7] for i_ in range(4000)], ()))   # 4000 test cases
+        if tier != 'quick' or pid in ('C07', 'C01'):
+            giant.append(([[97 + ((i_ >> k_) & 1) for k_ in range(16)] for i_ in range(65536)], ()))   # a trie with more than 2^16 states
+        for tcs, extra in giant:
+            fam.append({'tcs': tcs, 'f': flags_for(extra), 'mr': 1, 'ms': 1, 'alpha': 'giant', 'impl_only': True})
     allc = corpus + out + fam
     for i, c in enumerate(allc):
         c['id'] = i
-        c['lang'] = bool(spec.get('lang'))
-        c['lang_anchor'] = (pid == 'C08')
+        c['lang'] = bool(spec.get('lang')) and not c.get('impl_only')
+        c['lang_anchor'] = (pid == 'C08') and not c.get('impl_only')
         # the escaping setter takes a value: the last call decides (a third of C11's cases call it with `true` first)
         if pid == 'C11' and i % 3 == 0 and 'e' in flags_of(c):
             c['esc_twice'] = True
@@ -584,7 +643,7 @@ def correspondence(pid, spec, res, st, allc, impl=None):
         impl = runner.run_impl(allc)
     model = {}
     if st['driver_ok']:
-        model = runner.run_model(allc, impl)
+        model = runner.run_model([c for c in allc if not c.get('impl_only')], impl)
     else:
         broken.append('model/driver not available: ' + '; '.join(st['errors'])[:600])
     stage_diffs = {}
@@ -738,7 +797,7 @@ def run_property(pid, tier, seed):
     res['stats']['t_impl'] = round(time.time() - t0, 1)
     model = {}
     if st['driver_ok']:
-        model = runner.run_model(allc, impl)
+        model = runner.run_model([c for c in allc if not c.get('impl_only')], impl)
     else:
         broken.append('model/driver not available: ' + '; '.join(st['errors'])[:600])
     res['stats']['t_model'] = round(time.time() - t0, 1)
